@@ -16,7 +16,7 @@ RULE = ("rules: $deref with every present/absent combination of register_multipl
         "spelled with and without %, in operand position 1 (followed by a plain operand item) and 2; listings: one "
         "instruction whose operand in that position is EVERY operand of the menu {k(a,b,c),(a,b,c),k(a),(a),k(,b,c) over "
         "base/index in {rax,rbx,rcx,rsp}, scale 1/2/4/8, disp in {0x0,0x8,0x10,0x18,-0x8,0x80,0x7fffffff,-0x80000000,0x12345678}} plus registers and "
-        "immediates (AT&T text through the real operand normaliser). Round trip: every position-1 rule also against ONE real listing - `lea OP,%rdx` for every valid memory operand of the menu, assembled by `as` and printed by `objdump -d -M att` - where the matched addresses must be exactly those the reference selects. Oracle: component-wise equality (same present "
+        "immediates (AT&T text through the real operand normaliser). Round trip: every position-1 rule also against ONE real listing - `lea OP,%rdx` for every valid memory operand of the menu, assembled by `as` and printed by `objdump -d -M att` - where the matched addresses must be exactly those the reference selects. $deref meeting capture groups: a capture defined after a $deref of each shape and used again; plain and register-family captures as base / scaled index, used again in the next instruction, on every menu operand followed by a push of each of 4 registers. Oracle: component-wise equality (same present "
         "components, each equal modulo optional % / 0x). Non-trivial = reference finds the rule, or the operand is a "
         "bracket form with the same main register.")
 ASSUMPTIONS = ["a constant written WITH 0x in the rule is not required to match an operand printed without it (scale)"]
@@ -94,8 +94,28 @@ def rules_for(tier):
     return rules
 
 
+def capture_rules(tier):
+    """$deref meets capture groups: a capture defined after a $deref of every shape and used again (group numbering), and
+    captures - plain and register-family - as base / scaled index of a $deref, used again in the next instruction"""
+    base = {"main_reg": "rax"}
+    shapes = [dict(base), dict(base, constant_offset="0x8"), dict(base, register_multiplier="rbx", constant_multiplier=4),
+              dict(base, register_multiplier="rbx", constant_multiplier=4, constant_offset="0x8"),
+              dict(base, register_multiplier="rbx", constant_multiplier=8, constant_offset="-0x8")]
+    rules = []
+    for s_ in shapes:
+        rules.append(e1.RuleCase("PC/after", [{"mov": [{"$deref": dict(s_)}, "&x"]}, {"push": ["&x"]}], "pc"))
+        for cap in ("&b", "&genreg-b.64"):
+            rules.append(e1.RuleCase("PC/base", [{"mov": [{"$deref": dict(s_, main_reg=cap)}, "rdx"]}, {"push": [cap]}], "pc"))
+        if "register_multiplier" in s_:
+            for cap in ("&i", "&genreg-i.64"):
+                rules.append(e1.RuleCase("PC/index", [{"mov": [{"$deref": dict(s_, register_multiplier=cap)}, "rdx"]}, {"push": [cap]}], "pc"))
+                rules.append(e1.RuleCase("PC/index1", [{"mov": [{"$deref": dict(s_, register_multiplier=cap)}, "rdx"]}], "pc"))
+            rules.append(e1.RuleCase("PC/both", [{"mov": [{"$deref": dict(s_, main_reg="&b", register_multiplier="&i")}, "&x"]}, {"push": ["&i"]}], "pc"))
+    return rules
+
+
 def all_rules(tier):
-    return rules_for(tier)
+    return rules_for(tier) + capture_rules(tier)
 
 
 def shards(tier):
@@ -106,7 +126,8 @@ def build_lsets(h, tier):
     menu = operand_menu()
     longf = [[("movq", ["$0xffffffffffffffff", o])] for o in menu if "%fs" not in o][::3] + \
             [[("movabs", ["$0x1122334455667788", "%r10"]), ("movq", ["$0xffffffff80000000", "-0x12345678(%r10,%r11,8)"])]]
-    return {"p1": e1.ExplicitListingSet(h, [[("mov", [o, "%rdx"])] for o in menu]),
+    return {"pc": e1.ExplicitListingSet(h, [[("mov", [o, "%rdx"]), ("push", [r])] for o in menu for r in ("%rax", "%rbx", "%rcx", "%rdx")]),
+            "p1": e1.ExplicitListingSet(h, [[("mov", [o, "%rdx"])] for o in menu]),
             "plong": e1.ExplicitListingSet(h, longf),
             "p2": e1.ExplicitListingSet(h, [[("mov", ["%rdx", o])] for o in menu]),
             "p0": e1.ExplicitListingSet(h, [[("lea", [o])] for o in menu] + [[("lea", [o, "%rdx"])] for o in menu[::7]])}
